@@ -45,6 +45,30 @@ PROPS = {
         'assumptions': ["composition: IpmWriter.write frames exactly dumps(message) with its own encoding/configuration; IpmReader.__next__ hands exactly the framed record to loads with its own encoding/configuration; C01 (loads(dumps(m)) = m) and C03 (framing round trip) do the rest; an end-to-end ghost client over the real classes is executed for two messages (VBS and 1014)",
                         "isolation: every reader/writer method writes only fields of its own instance and its own file object (frame obligations; a lint over the class bodies for stores to class attributes or globals); simultaneous use from several THREADS is out of reach - only sequential interleavings of whole calls are covered"],
     },
+    'C19': {
+        'modules': ['contracts.iso_field', 'contracts.iso_pds', 'contracts.cli_tools'],
+        'canaries': [
+            ('cardutil/cli/mci_ipm_encode.py', "if field_config.get(\"field_processor\") == 'PDS':", "if field_config.get(\"field_processor\"):", "get_config removes every processor (ICC data re-encoded)", "get_config"),
+            ('cardutil/cli/mci_ipm_encode.py', "with IpmWriter(out_file, encoding=out_encoding, blocked=out_blocked) as writer:", "with IpmWriter(out_file, encoding=in_encoding, blocked=out_blocked) as writer:", "output written in the input encoding", "mci_ipm_encode[vbs->1014"),
+            ('cardutil/cli/paramconv.py', "out_records = (record.encode(out_encoding) for record in in_records)", "out_records = (record.upper().encode(out_encoding) for record in in_records)", "parameter records altered", "paramconv[vbs"),
+            ('cardutil/cli/mideu.py', "reader = IpmReader(in_file, encoding=in_encoding, blocked=out_blocked)", "reader = IpmReader(in_file, encoding=in_encoding, blocked=False)", "mideu convert ignores input blocking", "mideu.convert[ebcdic,1014"),
+        ],
+        'assumptions': ["the tool functions are verified against the CONTRACTS of the reader / writer classes (their per-record behaviour is C01, C03, C06): which encoding, blocking and configuration each side gets, every record written once in order, output finalised once; the per-record claims are the conversion lemmas (element decoded under A, re-encoded under B, decodes under B to the same value; binary ICC data byte-identical; A->B->A byte-for-byte for characters encodable in both codecs)",
+                        "codec bijection on the characters used is an assumption about the code pages (exhaustively checked for latin_1, cp500, cp037 in the native stand-in); generator expressions are evaluated eagerly by the engine (same results, different interleaving of reads and writes)",
+                        "cli_run, argparse, open(), output-file naming: not verified, not claimed (mideu.convert's open() calls are modelled as named ghost files)",
+                        "mideu convert re-packs PDS sub-elements: equal carriers follow from C12 (same sorted items, same greedy cuts); not re-proved here"],
+    },
+    'C20': {
+        'modules': ['contracts.iso_field', 'contracts.cli_tools'],
+        'canaries': [
+            ('cardutil/cli/mci_csv_to_ipm.py', "record = {k: v for k, v in row.items() if v}", "record = {k: v for k, v in row.items() if v and k != 'PDS0023'}", "a supplied column dropped on the way in", "mci_csv_to_ipm[1014"),
+            ('cardutil/cli/mci_ipm_to_csv.py', "writer.writerow({item: data_item[item] for item in data_item if item in field_list})", "writer.writerow({item: data_item[item] for item in data_item if item in field_list and data_item[item]})", "zero / empty values dropped on extraction", "mci_ipm_to_csv[1014"),
+            ('cardutil/cli/mci_csv_to_ipm.py', "blocked = not no1014blocking", "blocked = bool(no1014blocking)", "blocking flag inverted", "mci_csv_to_ipm[vbs"),
+        ],
+        'assumptions': ["csv.DictReader / csv.DictWriter are modelled as a text round trip of rows of cells (quoting of commas, quotes and spaces is the csv module's, assumed); csv writes str(value); dateutil.parser.parse(str(dt)) = dt for second-precision datetimes is assumed",
+                        "plumbing only: each CSV row becomes one message holding exactly its non-empty cells; each record becomes one CSV row holding exactly the configured columns it has; encoding / blocking / configuration are passed to the writer and reader; the message round trip in between is C06",
+                        "command entry points on real files (cli_run) are not verified"],
+    },
     'C18': {
         'modules': ['contracts.iso_field', 'contracts.ipm_param'],
         'canaries': [
